@@ -17,6 +17,15 @@ theorem gen_remove_is_one_loadAndDelete :
 theorem gen_has_is_one_load :
     Gen.SetCalls.hasStmts = 2 ∧ Gen.SetCalls.hasCalls = ["s.m.Load"] ∧ Gen.SetCalls.hasReturns = ["has"] := ⟨rfl, rfl, rfl⟩
 
+/-- `AddSet` / `RemoveSet` are a loop of element operations and return the number of successful ones: one `Range` over the argument whose
+callback calls `s.Add` / `s.Remove` once and counts a `true` — no fast path, no check-then-act on the receiver (so their counts are sums of
+results of the atomic element operations of `C05.conc_alternate`, see `C05.conc_counts_add_up`) -/
+theorem gen_addset_is_a_loop_of_adds :
+    Gen.SetCalls.addsetStmts = 3 ∧ Gen.SetCalls.addsetCalls = ["set.Range", "s.Add"] ∧ Gen.SetCalls.addsetReturns = ["true", "added"] := ⟨rfl, rfl, rfl⟩
+
+theorem gen_removeset_is_a_loop_of_removes :
+    Gen.SetCalls.removesetStmts = 3 ∧ Gen.SetCalls.removesetCalls = ["set.Range", "s.Remove"] ∧ Gen.SetCalls.removesetReturns = ["true", "removed"] := ⟨rfl, rfl, rfl⟩
+
 /-- and the map underneath exposes every atomic action to the controlled scheduler -/
 theorem gen_map_sites_hooked : Gen.MapHooks.unhooked = [] := rfl
 
